@@ -31,6 +31,10 @@
       pass starts (it is established by MainTransformer._pair_property_accessors, which is not
       modelled: on the real output the clause is judged by `girWellFormed`).
       C05_accessors_cleared needs no hypothesis.
+      The entry condition does NOT always hold on the unchanged code
+      (`C05_accessors_entry_counterexample`, pending finding: properties `is-active` / `active`);
+      likewise `C05_invoker_counterexample` ((virtual) on a constructor / static function).
+      Both defects are in MainTransformer, outside the pass model.
     * Other AST invariants assumed from the earlier passes: none in the theorems (the model takes the
       looked-up target kind of a reference into an included namespace as data: `Ty.ext`).
 -/
@@ -333,6 +337,59 @@ def emitAliasWitness (tf : List Bool) : GirWF.Env :=
 theorem C05_old_order_witness_gir :
     GirWF.girWellFormed (emitAliasWitness (validateOld aliasWitness).2.tf) = false
     ∧ (validate aliasWitness).map (fun r => GirWF.girWellFormed (emitAliasWitness r.2.1.tf)) = some true := by
+  decide +kernel
+
+/-! ### what the unchanged code still gets wrong (cross-reference clauses, MainTransformer) -/
+
+def boolRet : GirWF.Elem :=
+  el "return-value" [("transfer-ownership", "none")] [el "type" [("name", "gboolean")] []]
+
+def selfParam : GirWF.Elem :=
+  el "parameters" [] [el "instance-parameter" [("name", "self"), ("transfer-ownership", "none")]
+    [el "type" [("name", "O")] []]]
+
+/-- the class the scanner emits for read-only boolean properties `is-active`, `active` (dump order)
+    with methods `get_active` and `is_active`; `isActiveClaims` is the glib:get-property written on
+    `is_active` -/
+def emitTwoActive (isActiveClaims : String) : GirWF.Env :=
+  { main := el "repository" [("version", "1.2")] [
+      el "namespace" [("name", "Foo"), ("version", "1.0")] [
+        el "class" [("name", "O")] [
+          el "method" [("name", "get_active"), ("glib:get-property", "active")] [boolRet, selfParam],
+          el "method" [("name", "is_active"), ("glib:get-property", isActiveClaims)] [boolRet, selfParam],
+          el "property" [("name", "active"), ("transfer-ownership", "none"), ("getter", "get_active")]
+            [el "type" [("name", "gboolean")] []],
+          el "property" [("name", "is-active"), ("transfer-ownership", "none"), ("getter", "is_active")]
+            [el "type" [("name", "gboolean")] []]]]]
+    others := [] }
+
+/-- Known finding `gen:getter-mismatch:getter-claimed-for-another-property` (replayed on the real
+    pipeline: corpus `property-is-active-before-active`): `_pair_property_accessors` leaves
+    `is_active` with glib:get-property="active" although it is the getter of `is-active` — the
+    accessor clause of the property fails on that output; with "is-active" it would hold.  This
+    is the entry condition `AccAgree` of `C05_accessors`, which the pass cannot repair. -/
+theorem C05_accessors_entry_counterexample :
+    GirWF.girWellFormed (emitTwoActive "active") = false
+    ∧ GirWF.girWellFormed (emitTwoActive "is-active") = true := by
+  decide +kernel
+
+/-- the class emitted for `foo_o_new: (virtual v0)`; `tag` is the element `new` is written as -/
+def emitInvoker (tag : String) : GirWF.Env :=
+  { main := el "repository" [("version", "1.2")] [
+      el "namespace" [("name", "Foo"), ("version", "1.0")] [
+        el "class" [("name", "O")] [
+          el tag [("name", "new"), ("c:identifier", "foo_o_new")] [voidRet],
+          el "virtual-method" [("name", "v0"), ("invoker", "new")] [voidRet, selfParam]]]]
+    others := [] }
+
+/-- Known finding `gen:invoker-not-a-method:virtual-annotation-on-constructor-or-function`
+    (corpus `virtual-annotation-on-constructor-and-static-function`): the invoker of a virtual
+    method is written as a `<constructor>`; "a virtual method's invoker is a method of the same
+    type" fails, and would hold were it a `<method>`. -/
+theorem C05_invoker_counterexample :
+    GirWF.girWellFormed (emitInvoker "constructor") = false
+    ∧ GirWF.girWellFormed (emitInvoker "function") = false
+    ∧ GirWF.girWellFormed (emitInvoker "method") = true := by
   decide +kernel
 
 /-! ### accessor names (`_introspectable_property_analysis`) -/
